@@ -248,7 +248,7 @@ func goNetGetTx(a []string) (ans string) {
 	if err == nil && len(txs) != nTx {
 		return fmt.Sprintf("FAIL count got %d transactions for %d", len(txs), nTx)
 	}
-	if err == nil && nIds != nTx {
+	if err == nil && nIds != nTx && nTx > 0 { // an empty transaction list is returned before the ids are looked at
 		return "FAIL accepted a transaction list whose ids do not match its transactions"
 	}
 	if err != nil && nIds == nTx {
